@@ -1,4 +1,4 @@
-import Wx.Glob.IgnoreFilter
+import Wx.Glob.IgnoreFilterC
 /-! Spike: ignore_files::from_origin / DirTourist over an explicit tree description. -/
 namespace Sp.Disc
 open Sp.IF Sp.Glob
@@ -63,6 +63,24 @@ def visit (t : Tree) (base : Str) (watches : List Str) (w : W) (path : Str) : W 
     else { w with toVisit := w.toVisit ++ [c] }) w
   [".ignore", ".gitignore", ".hgignore"].foldl (fun w n => tryFile t w path n) w
 
+/-- `visit_path` as it is in /repo now (F14, F17 repaired): the origin is not judged, children are
+    pushed unconditionally and judged when they are popped -/
+def visitFix (t : Tree) (base : Str) (watches : List Str) (w : W) (path : Str) : W :=
+  if mustSkip w base path then w else
+  if path != base && !w.filter.checkDirFix path then skip w path else
+  if !related watches path then skip w path else
+  let w := (t.kids path).foldl (fun w c =>
+    if mustSkip w base c then w
+    else { w with toVisit := w.toVisit ++ [c] }) w
+  [".ignore", ".gitignore", ".hgignore"].foldl (fun w n => tryFile t w path n) w
+
+def walkFix (t : Tree) (base : Str) (watches : List Str) : Nat → W → W
+  | 0, w => w
+  | fuel + 1, w =>
+    match w.toVisit.getLast? with
+    | none => w
+    | some p => walkFix t base watches fuel (visitFix t base watches { w with toVisit := w.toVisit.dropLast } p)
+
 def walk (t : Tree) (base : Str) (watches : List Str) : Nat → W → W
   | 0, w => w
   | fuel + 1, w =>
@@ -87,6 +105,25 @@ def fromOrigin (t : Tree) (origin : Str) (watches : List Str) (explicit : List S
     | some f =>
       let w : W := { toVisit := [origin], toSkip := [], filter := f, out := pre }
       some (walk t origin watches (t.children.length + 2) w).out
+
+def vcsDirNames : List String := [".git", ".hg", ".bzr", "_darcs", ".fossil-settings", ".svn", ".pijul"]
+
+/-- from_origin as it is in /repo now: VCS metadata directories of the origin are on the skip list from the start -/
+def fromOriginFix (t : Tree) (origin : Str) (watches : List Str) (explicit : List Str) : Option (List Found) :=
+  let pre : List Found := explicit.map (fun p => ({ path := p, appliesIn := some origin } : Found))
+  let fixed := [".bzrignore", "_darcs/prefs/boring", ".fossil-settings/ignore-glob", ".git/info/exclude"]
+  let pre := fixed.foldl (fun acc n => match t.file? (join origin n) with
+    | some _ => acc ++ [({ path := join origin n, appliesIn := some origin } : Found)] | none => acc) pre
+  let files := pre.map (fun f => (f.appliesIn, (t.file? f.path).getD []))
+  match Filter.new origin files with
+  | none => none
+  | some f =>
+    match f.add (some origin) vcsGlobs with
+    | none => none
+    | some f =>
+      let w : W := { toVisit := [origin], toSkip := vcsDirNames.map (join origin), filter := f, out := pre }
+      -- every directory is pushed at most once, so (number of directories + 2) pops suffice
+      some (walkFix t origin watches (t.children.length + (t.children.map (·.2.length)).sum + 2) w).out
 
 /-! ### the C14 spec: reachable directories, judged by the files of their proper ancestors only -/
 
@@ -114,10 +151,12 @@ def specWalk (t : Tree) (origin : Str) (watches : List Str) : Nat → List (Str 
       !(d == origin && vcsDirs.contains c) && !specIgnoredDir origin anc' c && related watches c)
     specWalk t origin watches fuel (kids.map (fun c => (c, anc')) ++ rest) (acc ++ found)
 
-def specDiscover (t : Tree) (origin : Str) (watches : List Str) : List Str :=
+def specDiscover (t : Tree) (origin : Str) (watches : List Str) (explicit : List Str := []) : List Str :=
   let fixedNames := [".bzrignore", "_darcs/prefs/boring", ".fossil-settings/ignore-glob", ".git/info/exclude"]
   let fixed := fixedNames.filterMap (fun n => (t.file? (join origin n)).map (fun ls => (join origin n, ls)))
-  let anc0 : List (Option Str × List Str) := fixed.map (fun (_, ls) => (some origin, ls))
+  -- explicitly given ignore files apply at the origin, ahead of the origin-level VCS files
+  let anc0 : List (Option Str × List Str) :=
+    explicit.map (fun p => (some origin, (t.file? p).getD [])) ++ fixed.map (fun (_, ls) => (some origin, ls))
   if !related watches origin then fixed.map (·.1) else
   fixed.map (·.1) ++ specWalk t origin watches (t.children.length + 2) [(origin, anc0)] []
 
